@@ -201,7 +201,7 @@ def execute(run):
     if os.environ.get('VERIF_FREEZE_VOCABULARY'):
         freeze(binary)
     frozen = frozen_defs()
-    n, k = (700, 16) if run.tier == 'quick' else (9000, 32)
+    n, k = (3000, 16) if run.tier == 'quick' else (9000, 32)
     run.run_shards(binary, [{'name': 'pay-%d' % i, 'idx': i, 'n': n} for i in range(k)], extra={'defs': frozen})
 
 
